@@ -94,6 +94,8 @@ type Engine struct {
 	permute    bool
 	reachSeen  map[string]bool
 	failedLabels map[string]bool
+	unknownLabels map[string]int
+	abstractIDs   bool
 	reachPending map[string]string
 	lastPanic  *goPanic
 	collisionFree bool
@@ -297,7 +299,11 @@ func (e *Engine) branch(c *T) bool {
 	if tOK && fOK {
 		e.work = append(e.work, append(append([]int{}, e.decisions...), 0))
 		if e.trace && e.curFn != nil {
-			fmt.Fprintf(os.Stderr, "  [fork p%d #%d] %s b%d\n", e.pathNo, len(e.decisions), e.curFn.String(), e.curBlk)
+			cs := c.String()
+			if len(cs) > 160 {
+				cs = cs[:160]
+			}
+			fmt.Fprintf(os.Stderr, "  [fork p%d #%d] %s b%d on %s\n", e.pathNo, len(e.decisions), e.curFn.String(), e.curBlk, cs)
 		}
 	}
 	e.decisions = append(e.decisions, d)
@@ -544,6 +550,20 @@ func (e *Engine) callFree(fn *ssa.Function, args []Value, free []Value) Value {
 	}
 	if envNoop(name, fn) {
 		return e.zeroResults(fn)
+	}
+	if strings.HasPrefix(name, "(*") && fn.Synthetic != "" && len(args) > 0 {
+		// pointer-receiver wrapper of a value-receiver method that has a model or intrinsic
+		vname := "(" + name[2:]
+		if p, ok := args[0].(*PtrVal); ok && p != nil {
+			if in := lookupIntrinsic(vname); in != nil {
+				e.stubsUsed[normName(vname)] = true
+				return in(e, fn, append([]Value{load(p.L)}, args[1:]...))
+			}
+			if m, ok := e.sh.models[normName(vname)]; ok {
+				e.stubsUsed["model:"+normName(vname)] = true
+				return e.call(m, append([]Value{load(p.L)}, args[1:]...))
+			}
+		}
 	}
 	if fn.Blocks == nil {
 		if tgt := e.linkname(fn); tgt != nil {
